@@ -150,15 +150,25 @@ def _fix_variable_names(
 def _fix_undefined_variables(source: str, variables: Collection[str]) -> str:
     variables = set(variables)
 
-    lines = source.splitlines()
+    # Only \n ends a line of code, there may be other line separators in string literals
+    lines = source.rstrip("\n").split("\n")
     change_count = -len(lines)
+    # Below the module docstring and from __future__ imports, however many lines they are
+    header_end_lineno = 0
+    for i, node in enumerate(core.parse(source).body):
+        if (i == 0 and core.match_template(node, ast.Expr(value=ast.Constant(value=str)))) or (
+            core.match_template(node, ast.ImportFrom(module="__future__"))
+        ):
+            header_end_lineno = node.end_lineno
+        else:
+            break
     lineno = next(
-        i
-        for i, line in enumerate(lines)
-        if not line.startswith("#")
-        and not line.startswith("'''")
-        and not line.startswith('"""')
-        and not line.startswith("from __future__ import")
+        (
+            i
+            for i, line in enumerate(lines)
+            if i >= header_end_lineno and not line.startswith("#")
+        ),
+        len(lines),
     )
     for package, package_variables in constants.ASSUMED_SOURCES.items():
         overlap = variables.intersection(package_variables)
